@@ -17,7 +17,7 @@
    True/1/1.0); it is proved for the instance used in the correspondence run ([C02_run_keys_decide_eq]). *)
 From Coq Require Import ZArith List Bool Permutation Sorted.
 Require Import PV.Model.Keyed PV.Model.KeyedSpec.
-Require Import PV.Proofs.Keyed PV.Proofs.KeyedAgg PV.Proofs.KeyedRdd PV.Proofs.KeyedPv.
+Require Import PV.Proofs.Keyed PV.Proofs.KeyedAgg PV.Proofs.KeyedRdd PV.Proofs.KeyedPv PV.Proofs.KeyedOrder.
 Import ListNotations.
 
 (* ================= the property, per method, end to end (partitioned inputs -> collect()) ================= *)
@@ -185,6 +185,13 @@ Proof. exact @partition_independence_aggregate. Qed.
 (* ================= the instance used by the correspondence run satisfies the premise ======================= *)
 Theorem C02_run_keys_decide_eq : decides_eq pv_eqb.
 Proof. exact pv_eqb_decides. Qed.
+(* ... and the key order of the run (Python's < on ints / strings / int tuples) is total and transitive *)
+Theorem C02_run_key_order_total : forall a b, pv_leb a b = true \/ pv_leb b a = true.
+Proof. exact pv_leb_total. Qed.
+Theorem C02_run_key_order_trans : forall a b c, pv_leb a b = true -> pv_leb b c = true -> pv_leb a c = true.
+Proof. exact pv_leb_trans. Qed.
+Theorem C02_run_key_order_ints : forall x y, pv_leb (PInt x) (PInt y) = Z.leb x y.
+Proof. exact pv_leb_int. Qed.
 
 (* ================= non-vacuity and sanity ================================================================== *)
 Example Zeqb_decides : decides_eq Z.eqb.
